@@ -14,6 +14,13 @@ import (
 
 type OpCode int
 
+// Families of histories (Generate).
+const (
+	FamPlain = iota
+	FamBind
+	FamKeys
+)
+
 const (
 	OpNew OpCode = iota
 	OpAddType
@@ -34,8 +41,9 @@ var opNames = map[OpCode]string{OpNew: "New", OpAddType: "AddType", OpAddRule: "
 
 // Obj declares one object of a history.
 type Obj struct {
-	Kind int // KSchema, KRegex, KEnum, KDoc
-	Spec int // index into Schemas / Regexes / Enums / Docs
+	Kind int  // KSchema, KRegex, KEnum, KDoc
+	Spec int  // index into Schemas / Regexes / Enums / Docs
+	Opt  bool // KSchema: created with jschema.KeysAreOptionalByDefault() (pool_keys.go)
 }
 
 func (o Obj) Text() string {
@@ -53,7 +61,7 @@ func (o Obj) Text() string {
 func (o Obj) Ctor() string {
 	switch o.Kind {
 	case KSchema:
-		return fmt.Sprintf("jschema.New(%q, %q)", Schemas[o.Spec].ID, o.Text())
+		return fmt.Sprintf("jschema.New(%q, %q%s)", Schemas[o.Spec].ID, o.Text(), OptText(o.Opt))
 	case KRegex:
 		return fmt.Sprintf("regex.New(\"rx\", %q)", o.Text())
 	case KEnum:
@@ -122,7 +130,7 @@ func (w *World) create(i int) {
 	o := w.H.Objs[i]
 	switch o.Kind {
 	case KSchema:
-		w.Objs[i] = jschema.New(Schemas[o.Spec].ID, o.Text())
+		w.Objs[i] = jschema.New(Schemas[o.Spec].ID, o.Text(), SchemaOptions(o.Opt)...)
 	case KRegex:
 		w.Objs[i] = regex.New("rx", o.Text())
 	case KEnum:
@@ -468,6 +476,10 @@ var docFit = map[string][]int{
 
 type gen struct {
 	r         *rand.Rand
+	ro        *rand.Rand // the option bits of the schema objects are drawn from a PRNG of their own
+	pOptRoot  float64    // probability that a root object is created with KeysAreOptionalByDefault()
+	pOptType  float64    // the same for a type object
+	keys      bool       // keys history (see Generate)
 	h         *History
 	withKnown bool
 	focus     bool    // sharing-focused history (see Generate)
@@ -485,7 +497,16 @@ type gen struct {
 }
 
 func (g *gen) newObj(kind, spec int) int {
-	g.h.Objs = append(g.h.Objs, Obj{kind, spec})
+	opt := false
+	if kind == KSchema {
+		// one draw per schema object, independent of every other object
+		if x := g.ro.Float64(); Schemas[spec].IsType {
+			opt = x < g.pOptType
+		} else {
+			opt = x < g.pOptRoot
+		}
+	}
+	g.h.Objs = append(g.h.Objs, Obj{Kind: kind, Spec: spec, Opt: opt})
 	g.created = append(g.created, false)
 	return len(g.h.Objs) - 1
 }
@@ -531,7 +552,7 @@ func (g *gen) plan(i int) {
 			q = append(q, Op{Code: OpAddType, Obj: i, Arg: g.instance(tr.Kind, tr.Spec, g.pShare), Name: tr.Name})
 		}
 	}
-	if len(q) > 1 && (g.r.Intn(8) == 0 || (g.bind && g.r.Intn(2) == 0)) {
+	if len(q) > 1 && (g.r.Intn(8) == 0 || ((g.bind || g.keys) && g.r.Intn(2) == 0)) {
 		g.r.Shuffle(len(q), func(a, b int) { q[a], q[b] = q[b], q[a] })
 	}
 	if len(q) > 0 {
@@ -588,7 +609,7 @@ func (g *gen) docOpOK(d int, code OpCode) bool {
 func malformedDocs() []int {
 	var out []int
 	for i := 0; i < NDocs(); i++ {
-		w := NewWorld(&History{Objs: []Obj{{KDoc, i}}})
+		w := NewWorld(&History{Objs: []Obj{{Kind: KDoc, Spec: i}}})
 		w.create(0)
 		if r, _ := w.Exec(Op{Code: OpCheck, Obj: 0, Arg: -1}); r != "ok" {
 			out = append(out, i)
@@ -718,8 +739,18 @@ func (g *gen) observeSchema(i int) {
 // then Check / Validate / Example / GetAST / UsedUserTypes on the roots in a
 // random order, so that each root is observed after any history of calls on the
 // others (whichever of them is compiled first).
-func Generate(r *rand.Rand, withKnown, bind bool) *History {
-	g := &gen{r: r, h: &History{}, withKnown: withKnown, pShare: 0.7, pending: map[int][]Op{}, added: map[int]bool{}, spent: map[int]bool{},
+//
+// keys: a KEYS history (pool_keys.go): 2-3 roots of the keys family over ONE
+// shared type object with unmarked keys, every root (probability 1/2) and every
+// type object (1/4) created with KeysAreOptionalByDefault() independently, the
+// rest as in a binding history; the documents preferred are the root's full
+// document and the documents lacking one key of it.
+//
+// ro: the PRNG of the option bits.  In the other histories every schema object
+// is created with the option with probability 1/5.
+func Generate(r, ro *rand.Rand, withKnown bool, family int) *History {
+	bind, keys := family == FamBind, family == FamKeys
+	g := &gen{r: r, ro: ro, pOptRoot: 0.2, pOptType: 0.2, h: &History{}, withKnown: withKnown, pShare: 0.7, pending: map[int][]Op{}, added: map[int]bool{}, spent: map[int]bool{},
 		advanced: map[int]bool{}, checked: map[int]bool{}, lened: map[int]bool{}}
 	// a history draws its roots either from the base pool (constructs: rules,
 	// enums, allOf, or, key shortcuts, recursion, broken texts) or from the
@@ -741,10 +772,17 @@ func Generate(r *rand.Rand, withKnown, bind bool) *History {
 		nRoots = 2 + r.Intn(2)
 	}
 	var rootObjs []int
-	if bind {
-		g.focus, g.bind = true, true
+	if keys {
+		g.pOptRoot, g.pOptType = 0.5, 0.25
+	}
+	if bind || keys {
+		g.focus, g.bind, g.keys = true, bind, keys
 		g.pShare = 0.95
-		for _, spec := range bindRootSpecs(r) {
+		specs := bindRootSpecs
+		if keys {
+			specs = keyRootSpecs
+		}
+		for _, spec := range specs(r) {
 			i := g.newObj(KSchema, spec)
 			g.plan(i)
 			rootObjs = append(rootObjs, i)
@@ -817,7 +855,7 @@ func Generate(r *rand.Rand, withKnown, bind bool) *History {
 		maxOps = 9 + r.Intn(4)
 		pSetup = 0.9
 	}
-	if bind {
+	if bind || keys {
 		maxOps = 10 + r.Intn(3)
 		pSetup = []float64{0.95, 0.9, 0.6}[r.Intn(3)]
 	}
@@ -842,7 +880,7 @@ func Generate(r *rand.Rand, withKnown, bind bool) *History {
 			continue
 		}
 		x := r.Intn(100)
-		if bind {
+		if bind || keys {
 			x = x * 7 / 10 // 79% a root, 14% a type object directly, 7% a document
 		}
 		switch {
